@@ -270,7 +270,7 @@ def date_variants(name, slices, **opts):
         mm, dd = draw(st.one_of(st.sampled_from(SPECIAL_DATES), st.tuples(
             st.integers(1, 12).map(lambda x: '%02d' % x), st.integers(1, 31).map(lambda x: '%02d' % x))))
         yy = draw(st.sampled_from(['00', '01', '04', '96', '97', '99', '85', v[ysl][-2:]]))
-        moff = draw(st.sampled_from([0, 0, 0, 20, 40, 50, 70]))
+        moff = draw(st.sampled_from([0, 0, 0, 20, 40, 50, 60, 70, 80]))
         doff = draw(st.sampled_from([0, 0, 0, 40]))
         if not (mm.isdigit() and dd.isdigit()):
             return v
